@@ -84,3 +84,9 @@ mod tests {
         }
     }
 }
+
+// verification hook: the Python-exposed `from_json` function itself
+#[cfg(feature = "verif")]
+pub(crate) fn verif_py_from_json(json: &str) -> Result<DeserializedObj, String> {
+    Python::with_gil(|py| from_json_py(py, json).map_err(|e| e.to_string()))
+}
